@@ -202,7 +202,7 @@ class Environment:
             print('Failed event:')
             print(f'  time:     {next_event.time}')
             print(f'  asset_id: {next_event.asset_id}')
-            print(f'  action:   {next_event.action.__name__}')
+            print(f'  action:   {Environment._get_action_name(next_event.action)}')
             print(f'  event_type: {next_event.event_type}')
             print(f'  message: {next_event.message}')
             print(f'  status: {next_event.status}')
@@ -249,11 +249,19 @@ class Environment:
     def _trace_event(self, event):
         self._event_trace[self._event_index] = {'time': self.now,
                                                 'asset_id': event.asset_id,
-                                                'action': event.action.__name__,
+                                                'action': Environment._get_action_name(event.action),
                                                 'message': event.message,
                                                 'event_type': event.event_type,
                                                 'status': event.status}
         self._event_index += 1
+
+    @staticmethod
+    def _get_action_name(action):
+        # Actions wrapped with functools.partial do not have a name of
+        # their own, use the name of the wrapped function.
+        while hasattr(action, 'func') and not hasattr(action, '__name__'):
+            action = action.func
+        return getattr(action, '__name__', repr(action))
 
     def _export_trace(self):
         with open(os.path.expanduser(f'~/Downloads/{self.name}_trace.json'), 'w') as fp:
